@@ -457,3 +457,9 @@ def r11(ctx, R):
                         lv['update_nodes'] = m.group(1) if m else None
             norm = lambda x: {'len(S.levels) - 1': '-1', 'len(self.S.levels) - 1': '-1'}.get(x, x)
             R.check(len({norm(v) for v in lv.values()}) == 1 and None not in lv.values(), f'{cn}.{meth} :: send, receive and sweep address the same level', w, 'one level expression', lv)
+
+
+@rule('C07', 'C07.R12', 'MPI sibling of the done chain: the flag a rank forwards is the chained one (done and prev_done is assigned before, and never after, the send; shared with C08.R12)', floor=3)
+def r12(ctx, R):
+    from . import c08
+    c08.r12(ctx, R)
